@@ -173,7 +173,13 @@ func routeSpec(ts []refmodel.Template, varType func(tmpl, name string) *spec.Sch
 			}
 		}
 		for _, m := range t.Methods {
-			pi.Ops = append(pi.Ops, &spec.Op{Method: m, Responses: []*spec.Response{{Status: "default", Desc: "d"}}})
+			op := &spec.Op{Method: m, Responses: []*spec.Response{{Status: "default", Desc: "d"}}}
+			// templates with characters that cannot appear in a Go identifier get an operationId (names derived
+			// from such paths are C01's business)
+			if strings.ContainsAny(t.Path, "+% ") {
+				op.ID = fmt.Sprintf("op%d%s", len(s.Paths), strings.ToLower(m))
+			}
+			pi.Ops = append(pi.Ops, op)
 		}
 		s.Paths = append(s.Paths, pi)
 	}
@@ -199,6 +205,7 @@ func prefixesFor(want string) []string {
 type routeState struct {
 	ts   []refmodel.Template
 	base cells.BaseForm
+	segs []string // request segment alphabet (nil: a, b, c, empty)
 }
 
 func (r routeState) id() string {
@@ -229,9 +236,9 @@ func c03States(tier string) []routeState {
 	// |T| = 1: every base form with GET; base none/v1 with the other method sets
 	for _, set := range templateSets(1, d1, nil) {
 		for _, b := range cells.BaseForms {
-			out = append(out, routeState{mkTemplates(set, G), b})
+			out = append(out, routeState{ts: mkTemplates(set, G), base: b})
 		}
-		out = append(out, routeState{mkTemplates(set, P), none}, routeState{mkTemplates(set, GP), none})
+		out = append(out, routeState{ts: mkTemplates(set, P), base: none}, routeState{ts: mkTemplates(set, GP), base: none})
 	}
 	// |T| = 2
 	d2 := 2
@@ -239,17 +246,28 @@ func c03States(tier string) []routeState {
 		d2 = 3
 	}
 	for _, set := range templateSets(2, d2, nil) {
-		out = append(out, routeState{mkTemplates(set, G, G), none}, routeState{mkTemplates(set, G, P), none}, routeState{mkTemplates(set, GP, G), cells.BaseFormByName("v1")})
+		out = append(out, routeState{ts: mkTemplates(set, G, G), base: none}, routeState{ts: mkTemplates(set, G, P), base: none}, routeState{ts: mkTemplates(set, GP, G), base: cells.BaseFormByName("v1")})
 		if tier == "thorough" && len(refmodel.Segs(set[0]))+len(refmodel.Segs(set[1])) <= 4 {
 			for _, b := range cells.BaseForms {
-				out = append(out, routeState{mkTemplates(set, G, GP), b})
+				out = append(out, routeState{ts: mkTemplates(set, G, GP), base: b})
 			}
 		}
+	}
+	// a path item WITHOUT operations next to one with (before and after it in sorted order)
+	for _, set := range templateSets(2, d2, nil) {
+		out = append(out, routeState{ts: mkTemplates(set, []string{}, G), base: none}, routeState{ts: mkTemplates(set, GP, []string{}), base: none})
+	}
+	// literal segments with characters that URL escaping treats specially; the request alphabet holds the
+	// literal, its query-unescaped and its escaped spellings
+	special := []string{"c++", "c  ", "c%2B%2B", "a b", "a%20b", "a+b", "x", ""}
+	for _, set := range [][]string{{"/c++"}, {"/c++/{x}", "/c++"}, {"/c++", "/{x}"}, {"/a+b/{x}", "/a b/{x}"}, {"/a%20b", "/{x}"}, {"/{x}/c++", "/{x}/{y}"}} {
+		ms := [][]string{G, GP}
+		out = append(out, routeState{ts: mkTemplates(set, ms...), base: none, segs: special}, routeState{ts: mkTemplates(set, ms...), base: cells.BaseFormByName("v1"), segs: special})
 	}
 	if tier == "quick" {
 		// the variable-name interaction pairs of depth 3
 		for _, set := range templateSets(2, 3, sharedVarPosition) {
-			out = append(out, routeState{mkTemplates(set, G, G), none})
+			out = append(out, routeState{ts: mkTemplates(set, G, G), base: none})
 		}
 	}
 	if tier == "thorough" {
@@ -260,14 +278,14 @@ func c03States(tier string) []routeState {
 				alt = append(alt, applySym(t, c03Sym[3]))
 			}
 			if strings.Join(alt, " ") != strings.Join(set, " ") {
-				out = append(out, routeState{mkTemplates(alt, G, GP), none})
+				out = append(out, routeState{ts: mkTemplates(alt, G, GP), base: none})
 			}
 		}
 	}
 	// |T| = 3
 	if tier == "thorough" {
 		for _, set := range templateSets(3, 2, nil) {
-			out = append(out, routeState{mkTemplates(set, G, G, G), none})
+			out = append(out, routeState{ts: mkTemplates(set, G, G, G), base: none})
 		}
 	} else {
 		for _, set := range templateSets(3, 2, func(ts []string) bool {
@@ -282,7 +300,7 @@ func c03States(tier string) []routeState {
 			}
 			return lit && v && len(strings.Join(ts, "")) <= 14
 		}) {
-			out = append(out, routeState{mkTemplates(set, G, G, G), none})
+			out = append(out, routeState{ts: mkTemplates(set, G, G, G), base: none})
 		}
 	}
 	return out
@@ -295,6 +313,10 @@ func routeBState(rs routeState, prop string, extra func(*drv.RoutePayload, *genr
 	}
 	pl := &drv.RoutePayload{State: rs.id(), Templates: rs.ts, Base: rs.base.Want, BaseName: rs.base.Name, Prefixes: prefixesFor(rs.base.Want),
 		Segs: []string{"a", "b", "c", ""}, MaxDepth: 5, Methods: []string{"GET", "POST", "DELETE", "OPTIONS"}, SpecName: "openapi.yaml"}
+	if rs.segs != nil {
+		pl.Segs = rs.segs
+		pl.MaxDepth = 3
+	}
 	g := &genrun.Job{Spec: sp.YAML(), BasePath: rs.base.Flag}
 	if extra != nil {
 		extra(pl, g)
